@@ -541,6 +541,29 @@ def run_e2e(chk, c, qitems, qmeta):
                             chk.violation("e2e:reinitialize:Redfield", "RedfieldRelaxationTensor.initialize() called again changes the tensor by %g"
                                           % np.max(np.abs(again - first)), "monitor", c)
                 tensors.append((type(RT).__name__, RT, agg.get_Hamiltonian(), ham))
+                if th == "stR_ops":
+                    # the operator form itself, converted to a tensor INSIDE basis contexts (its operator components have to follow
+                    # the basis change): real orthogonal and complex unitary bases
+                    hsite = agg.get_Hamiltonian()
+                    rs3 = np.random.RandomState(c["seed"] + 7)
+                    A3 = rs3.randn(hsite.dim, hsite.dim)
+                    B3 = rs3.randn(hsite.dim, hsite.dim) + 1j * rs3.randn(hsite.dim, hsite.dim)
+                    for bname, bop in (("a random symmetric operator", qr.qm.hilbertspace.operators.SelfAdjointOperator(data=A3 + A3.T)),
+                                       ("a random complex Hermitian operator", qr.ReducedDensityMatrix(data=B3 + B3.conj().T))):
+                        RTc, _h = agg.get_RelaxationTensor(ta, as_operators=True, **dict(kw, secular_relaxation=False))
+                        with qr.eigenbasis_of(bop):
+                            RTc.convert_2_tensor()
+                            dC = np.array(RTc.data)
+                        sc = max(1e-30, float(np.max(np.abs(dC))))
+                        td_, hd_ = trace_dev(dC), herm_dev(dC)
+                        nm = type(RTc).__name__ + "(operator form converted in a context)"
+                        if td_ > 1e-10 * sc:
+                            chk.violation("e2e:trace:%s" % nm, "%s [%s] converted to a tensor in the eigenbasis of %s: max |sum_a R[a,a,c,d]| = %.3g "
+                                          "(scale %.3g)" % (nm, label, bname, td_, sc), "monitor", c)
+                        if hd_ > 1e-10 * sc:
+                            chk.violation("e2e:hermiticity:%s" % nm, "%s [%s] converted to a tensor in the eigenbasis of %s: max |conj R[a,b,c,d] - "
+                                          "R[b,a,d,c]| = %.3g (scale %.3g)" % (nm, label, bname, hd_, sc), "monitor", c)
+                        chk.count("e2e:operator form converted in a %s basis" % ("complex" if "complex" in bname else "real"))
                 if th == "cRF" and not c["td"]:
                     # structure of the final "add the Foerster rates" loop: RF - Redfield must be rf_add of a rate matrix
                     from quantarhei.qm import RedfieldFoersterRelaxationTensor, RedfieldRelaxationTensor
@@ -607,6 +630,11 @@ def run_e2e(chk, c, qitems, qmeta):
             opA = qr.qm.hilbertspace.operators.SelfAdjointOperator(data=A + A.T)
             with qr.eigenbasis_of(opA):
                 views.append(("eigenbasis of a random symmetric operator", np.array(RT.data)))
+            # "in every basis": a complex unitary basis change (eigenbasis of a Hermitian operator with complex coherences)
+            B = rs2.randn(ham.dim, ham.dim) + 1j * rs2.randn(ham.dim, ham.dim)
+            opC = qr.ReducedDensityMatrix(data=B + B.conj().T)
+            with qr.eigenbasis_of(opC):
+                views.append(("eigenbasis of a random complex Hermitian operator", np.array(RT.data)))
             d1 = np.array(RT.data)
             if np.max(np.abs(d1 - d0)) > 1e-9 * max(1e-30, np.max(np.abs(d0))):
                 chk.violation("e2e:not_restored:" + name, "%s [%s]: tensor data not restored after basis contexts" % (name, label), "monitor", c)
